@@ -471,6 +471,40 @@ CHECKS = {
         "components": {"real": REAL, "stubs": STUBS},
         "assumptions": ["a failing io.Writer alone does not count as 'could not be consumed completely': the rest of that reply is discarded and the connection stays usable"],
     },
+    "C38": {
+        "level": "exploration",
+        "rule": ("plans: 2-8 tasks calling Allow / AllowN(n in 0..limit+2) / Check on 1-3 rate limiter instances (own rueidis client and connection(s) each, normally one "
+                 "key prefix so identifiers are shared), 1-3 identifiers, limits 1..20, windows 50 ms..5 s of fake time crossed by scheduler ticks (tick sizes w/10, w/2, w, w+1 "
+                 "put calls before, exactly on and after window boundaries), per-call WithCustomRateLimit in a third of the plans, ghost SCRIPT FLUSH; variants: connection "
+                 "faults and node restarts, context deadlines, a server clock offset. The real rateLimitScript runs in the model (lualite) from the EVAL/EVALSHA the client sends. "
+                 "oracle (a): per (key, ResetAtMs) the n of calls with n>0 that reported Allowed add up to <= the limit. oracle (b): the history of every key (<= 40 calls, Call/"
+                 "Return = scheduler steps of start / observed return) is linearizable (porcupine v1.3.0, deterministic step budget instead of a wall-clock timeout; undecided = "
+                 "not judged) against a sequential fixed-window counter written from the property text: windows are identified by ResetAtMs, Remaining == max(limit - units "
+                 "requested so far in that window including this call and denied ones, 0), Check adds nothing, admitted units per window <= limit, a call is counted in window W "
+                 "only if it began at or before W, leaves a window only if that window is over by the time the call ends (a call exactly on the boundary may go either way), and "
+                 "the window it reports contains an instant of the call. Not demanded: that a fitting request is admitted, what Check's Allowed means. A call that returned an "
+                 "error or never returned is not judged; in the model it may have been counted (with its own n, once) at any later time or not at all. Violations are named by "
+                 "cause: over-admission-by-late-call / window-restarted-for-late-call when the history is explained by a window (same ResetAtMs) found at zero again by a call "
+                 "answered after that window had ended; request-nobody-made-was-counted when the server executed the script with arguments no call had; over-admission / "
+                 "not-a-fixed-window-counter otherwise. non-trivial = a key whose judged history had calls of different tasks overlapping; distinct = distinct event-log hash"),
+        "parts": [
+            {"module": "rueidislimiter", "scenario": "limiter", "quick": 900, "thorough": 120000},
+            {"module": "rueidislimiter", "scenario": "limiter", "variant": "faults", "quick": 600, "thorough": 80000},
+            {"module": "rueidislimiter", "scenario": "limiter", "variant": "skew", "quick": 300, "thorough": 30000},
+            {"module": "rueidislimiter", "scenario": "limiter", "variant": "deadline", "quick": 700, "thorough": 80000},
+        ],
+        "expected_probes": ["window-rollover", "concurrent-calls-on-one-identifier", "request-denied", "window-filled-exactly", "call-exactly-at-window-boundary",
+                            "identifier-shared-by-limiter-instances", "custom-rate-limit-used", "noscript-fallback-to-eval", "errored-call-possibly-counted"],
+        "components": {"real": "packages github.com/redis/rueidis/rueidislimiter (incl. its Lua script, interpreted by verifsim/lualite) and github.com/redis/rueidis built from /repo's working tree with -tags verif",
+                       "stubs": STUBS},
+        "assumptions": ["fakeredis models GET, SET ... PXAT, INCRBY and key expiry (lazy, also inside a script, and active) like Redis 7; lualite interprets the script like Lua 5.1",
+                        "all limiter instances live in one process and read one (fake) clock; clock differences between client machines are not explored",
+                        "the server clock is at most 400 ms ahead of the clients' clock in the skew part (it may be behind by any amount): a server clock further ahead expires the keys before "
+                        "the window ends and the limiter then admits more than the limit (variant skew-ahead shows it; the property does not quantify over clocks, so it is not a registered part)",
+                        "plans with context deadlines run with GOMAXPROCS=1, no garbage collection during the run and a fresh buffer pool, and every deadline expires at an instant of its own, because "
+                        "rueidislimiter keeps its command arguments in a sync.Pool buffer whose reuse is otherwise decided by the Go runtime",
+                        "porcupine verdict Unknown (step budget exhausted) is counted as not judged"],
+    },
     "C41": {
         "level": "exploration",
         "rule": ("plans: 1-4 tasks, each 1-3 Pipeline / TxPipeline / Watch+TxPipeline sessions of the go-redis adapter on one shared client, 1-6 queued "
